@@ -11,6 +11,7 @@ import (
 
 	"verifharness/kit"
 	"verifharness/respx"
+	"verifharness/srv"
 )
 
 // ---------------------------------------------------------------- protocol-level inputs
@@ -82,7 +83,15 @@ func execRaw(c RawCase) kit.Outcome {
 		return o
 	}
 	defer fresh.Close()
-	if v, err := fresh.DoS(1500*time.Millisecond, "PING"); err != nil || string(v.Str) != "PONG" {
+	v, err := fresh.DoS(1500*time.Millisecond, "PING")
+	if err == srv.ErrTimeout {
+		// (overloaded machine: not a verdict yet, see lateReply)
+		if v2, err2 := fresh.Read(20 * time.Second); err2 == nil {
+			v, err = v2, nil
+			kit.C.Label("reply-arrived-after-the-time-bound(machine-overloaded)", 1)
+		}
+	}
+	if err != nil || string(v.Str) != "PONG" {
 		if server.WaitExit(300 * time.Millisecond) {
 			rep := server.CrashReport()
 			o.Fail = fmt.Sprintf("crash: the server died after a client wrote %s: %s", show(), crashSite(rep))
